@@ -41,6 +41,19 @@ MUTANTS = {
     "reqnames_filter_off": ("typemap.py", "                and not (sig.req_names - names)\n", "", ["C02", "C01"]),
     "pushdown_tiebreak_plus": ("core.py", "msig = replace(sig, tiebreak=sig.tiebreak - 1)", "msig = replace(sig, tiebreak=sig.tiebreak + 1)", ["C02"]),
     "resolve_uses_type": ("core.py", "        return self.map[tuple(map(subtler_type, args))]", "        return self.map[tuple(map(type, args))]", ["C14"]),
+    # ---- C04
+    "mro_inplace_filter": ("typemap.py", "            results = {\n                handler: spc\n                for (handler, sig), spc in results.items()\n                if sig.req_pos",
+                           "            for _k in [k for k in results if not (k[1].req_pos <= nargs <= k[1].max_pos and not (k[1].req_names - names))]:\n                del results[_k]\n            results = {\n                handler: spc\n                for (handler, sig), spc in results.items()\n                if sig.req_pos", ["C04"]),
+    "errors_keyed_short": ("typemap.py", "                for tup in tups:\n                    self.errors[tup] = self.key_error(obj_t_tup, group)",
+                           "                for tup in tups:\n                    self.errors[tup[-1:]] = self.key_error(obj_t_tup, group)", ["C04"]),
+    "fresh_call_not_when_absent": ("typemap.py", "            if obj_t_tup[0] not in self.all[real_tup]:\n                return self[real_tup]",
+                                   "            if obj_t_tup[0] not in self.all.get(real_tup[:1], self.all[real_tup]):\n                return self[real_tup]", ["C04"]),
+    # ---- C07
+    "parents_first_code": ("typemap.py", "            parents = codes\n", "            parents = codes[:1]\n", ["C07"]),
+    "fresh_test_inverted": ("typemap.py", "            if obj_t_tup[0] not in self.all[real_tup]:", "            if obj_t_tup[0] in self.all[real_tup]:", ["C07"]),
+    "next_skips_rank": ("typemap.py", "        for group, (func, codes) in zip(results, funcs):", "        for group, (func, codes) in zip(results[:1] + results[2:], funcs[:1] + funcs[2:]):", ["C07"]),
+    "next_error_none_for_amb": ("typemap.py", "            elif obj_t_tup in self.errors:\n                raise self.errors[obj_t_tup]\n            elif obj_t_tup in self:", "            elif obj_t_tup in self:", ["C07"]),
+    "callnext_key_no_code": ("recode.py", "        if cn:\n            type_parts.insert(0, ast.Name(id=self.code_mangled, ctx=ast.Load()))\n", "", ["C07"]),
     # ---- C17
     "ext_first_base_only": ("core.py", "                for other in others:\n                    prev.add_mixins(other)\n", "", ["C17"]),
     "ext_no_copy": ("core.py", "                prev = prev.copy()\n                for other in others:", "                for other in others:", ["C17"]),
